@@ -104,5 +104,5 @@ def make_bpseq(n, pairs, seq=None):
     for i, j in pairs:
         pm[i] = j
         pm[j] = i
-    seq = seq or "".join("ACGU"[i % 4] for i in range(1, n + 1))
+    seq = seq or "".join("ACGUgcNau?"[i % 10] for i in range(1, n + 1))
     return BpSeq([Entry(i, seq[i - 1], pm.get(i, 0)) for i in range(1, n + 1)])
